@@ -2,6 +2,7 @@ package rules
 
 import (
 	"go/ast"
+	"go/constant"
 	"go/token"
 	"go/types"
 	"sort"
@@ -100,6 +101,11 @@ func origin(fn *core.FuncInfo, e ast.Expr, depth int) string {
 	case *ast.CallExpr:
 		if tv, ok := info.Types[x.Fun]; ok && tv.IsType() && len(x.Args) == 1 {
 			return origin(fn, x.Args[0], depth) // conversion
+		}
+		if originFollowSingle {
+			if through, ok := originThroughHelper(fn, x, 0, depth); ok {
+				return through
+			}
 		}
 		var args []string
 		for _, a := range x.Args {
@@ -235,11 +241,58 @@ func findCompositeLit(fn *core.FuncInfo, e ast.Expr) *ast.CompositeLit {
 	return nil
 }
 
+// litFieldOrigin: the origin (in fn's terms) of field `field` of the struct value e denotes — a composite literal
+// written in fn (directly or through a local), or one returned by a constructor helper of fn's package
+// (v := newT(a, b) with a single `return T{...}`), whose parameters are replaced by the call's arguments.
+func litFieldOrigin(fn *core.FuncInfo, e ast.Expr, field string, depth int) (string, bool) {
+	if cl := findCompositeLit(fn, e); cl != nil {
+		return origin(fn, litField(cl, field), depth), true
+	}
+	info := fn.Pkg.TypesInfo
+	e = ast.Unparen(e)
+	if id, ok := e.(*ast.Ident); ok {
+		if v, ok := info.Uses[id].(*types.Var); ok {
+			if defs := localDefs(fn, v); len(defs) == 1 && defs[0].idx < 0 {
+				e = ast.Unparen(defs[0].rhs)
+			}
+		}
+	}
+	call, ok := e.(*ast.CallExpr)
+	if !ok || curWorld == nil {
+		return "", false
+	}
+	h := curWorld.Info(core.Callee(info, call))
+	if h == nil || h.Pkg != fn.Pkg || h.Decl.Body == nil || h == fn {
+		return "", false
+	}
+	var rets []*ast.ReturnStmt
+	ast.Inspect(h.Decl.Body, func(n ast.Node) bool {
+		if _, isLit := n.(*ast.FuncLit); isLit {
+			return false
+		}
+		if rs, ok := n.(*ast.ReturnStmt); ok {
+			rets = append(rets, rs)
+		}
+		return true
+	})
+	if len(rets) != 1 || len(rets[0].Results) != 1 {
+		return "", false
+	}
+	cl := findCompositeLit(h, rets[0].Results[0])
+	if cl == nil {
+		return "", false
+	}
+	return substParams(origin(h, litField(cl, field), depth), h, call, fn, depth), true
+}
+
 var originBusy = map[*types.Func]bool{}
 
 // originFollowHelpers: set by the rules that want multi-result helpers looked through (opt-in: other rules
 // recognise helpers by what they are).
 var originFollowHelpers bool
+
+// originFollowSingle: single-result helpers too (a helper that wraps one call: nextID() { return int32(c.gen.Inc()) }).
+var originFollowSingle bool
 
 // originThroughHelper: the call goes to a small helper of the same package (a body, every return hands back the same
 // thing for result idx): the value's origin is what the helper returns, with the helper's parameters replaced by
@@ -247,7 +300,7 @@ var originFollowHelpers bool
 // Only helpers that themselves build the value from other calls/parameters are looked through — a helper whose
 // return for idx is a literal, a composite literal or anything mentioning its own locals beyond one level stays opaque.
 func originThroughHelper(fn *core.FuncInfo, call *ast.CallExpr, idx int, depth int) (string, bool) {
-	if curWorld == nil || depth <= 0 || !originFollowHelpers {
+	if curWorld == nil || depth <= 0 || !(originFollowHelpers || originFollowSingle) {
 		return "", false
 	}
 	callee := core.Callee(fn.Pkg.TypesInfo, call)
@@ -272,8 +325,19 @@ func originThroughHelper(fn *core.FuncInfo, call *ast.CallExpr, idx int, depth i
 		if !ok {
 			return true
 		}
+		if len(rs.Results) == 1 && sig.Results().Len() > 1 {
+			// return g(..) forwarding a multi-value call: result idx of the helper is result idx of g
+			if c, ok := ast.Unparen(rs.Results[0]).(*ast.CallExpr); ok {
+				if through, ok := originThroughHelper(h, c, idx, depth); ok {
+					rets = append(rets, through)
+				} else {
+					rets = append(rets, origin(h, c, depth)+"#"+string(rune('0'+idx)))
+				}
+				return true
+			}
+		}
 		if len(rs.Results) != sig.Results().Len() {
-			okAll = false // bare return / forwarded multi-value call
+			okAll = false // bare return
 			return true
 		}
 		e := rs.Results[idx]
@@ -285,21 +349,39 @@ func originThroughHelper(fn *core.FuncInfo, call *ast.CallExpr, idx int, depth i
 		if cl, ok := ast.Unparen(e).(*ast.CompositeLit); ok && len(cl.Elts) == 0 {
 			return true // zero value on an error path
 		}
+		if bl, ok := ast.Unparen(e).(*ast.BasicLit); ok && (bl.Value == `""` || bl.Value == "0") && len(rs.Results) > 1 && idx != len(rs.Results)-1 {
+			// zero value next to `false` / a non-nil error: the "nothing found" return
+			last := ast.Unparen(rs.Results[len(rs.Results)-1])
+			if v := core.ConstVal(h.Pkg.TypesInfo, last); v != nil && v.Kind() == constant.Bool && !constant.BoolVal(v) {
+				return true
+			}
+			if t := h.Pkg.TypesInfo.TypeOf(last); t != nil && types.Identical(t, types.Universe.Lookup("error").Type()) {
+				if id, ok := last.(*ast.Ident); !ok || id.Name != "nil" {
+					return true
+				}
+			}
+		}
 		rets = append(rets, origin(h, e, depth))
 		return true
 	})
 	delete(originBusy, callee)
 	rets = uniq(rets)
-	if !okAll || len(rets) != 1 || !strings.HasPrefix(rets[0], "call:") {
+	if !okAll || len(rets) != 1 || strings.HasPrefix(rets[0], "lit:") || strings.Contains(rets[0], "var:") || rets[0] == "nil" {
 		return "", false
 	}
-	out := rets[0]
+	return substParams(rets[0], h, call, fn, depth), true
+}
+
+// substParams rewrites an origin computed inside helper h (in terms of h's parameters) into the terms of the
+// caller fn, using the arguments of the call.
+func substParams(out string, h *core.FuncInfo, call *ast.CallExpr, fn *core.FuncInfo, depth int) string {
+	sig := h.Obj.Type().(*types.Signature)
 	// substitute parameters (longest names first so that 'ctx' does not eat 'ctx2')
 	ps := paramObjs(h)
 	type sub struct{ from, to string }
 	var subs []sub
 	for i, p := range ps {
-		if i < len(call.Args) {
+		if i < len(call.Args) && !(sig.Variadic() && i == len(ps)-1) {
 			subs = append(subs, sub{"param:" + p.Name(), origin(fn, call.Args[i], depth)})
 		}
 	}
@@ -316,7 +398,54 @@ func originThroughHelper(fn *core.FuncInfo, call *ast.CallExpr, idx int, depth i
 	for i, sb := range subs {
 		out = strings.ReplaceAll(out, "\x00"+string(rune('A'+i))+"\x00", sb.to)
 	}
-	return out, true
+	return out
+}
+
+// originVia: the origin of an expression that sits in function at, expressed in the terms of top, which calls at
+// (an extracted helper analysed in top's context). With at == top (or nil) it is origin(top, e).
+func originVia(top, at *core.FuncInfo, e ast.Expr, depth int) string {
+	if at == nil || at == top {
+		return origin(top, e, depth)
+	}
+	var sites []*ast.CallExpr
+	ast.Inspect(top.Decl.Body, func(n ast.Node) bool {
+		if c, ok := n.(*ast.CallExpr); ok && core.Callee(top.Pkg.TypesInfo, c) == at.Obj {
+			sites = append(sites, c)
+		}
+		return true
+	})
+	o := origin(at, e, depth)
+	if len(sites) == 0 {
+		// one level further: top -> mid -> at
+		var out []string
+		ast.Inspect(top.Decl.Body, func(n ast.Node) bool {
+			if c, ok := n.(*ast.CallExpr); ok && curWorld != nil {
+				if mid := curWorld.Info(core.Callee(top.Pkg.TypesInfo, c)); mid != nil && mid != top && mid != at && mid.Pkg == top.Pkg && mid.Decl.Body != nil {
+					ast.Inspect(mid.Decl.Body, func(m ast.Node) bool {
+						if c2, ok := m.(*ast.CallExpr); ok && core.Callee(mid.Pkg.TypesInfo, c2) == at.Obj {
+							out = append(out, substParams(substParams(o, at, c2, mid, depth), mid, c, top, depth))
+						}
+						return true
+					})
+				}
+			}
+			return true
+		})
+		out = uniq(out)
+		if len(out) == 1 {
+			return out[0]
+		}
+		return o + "@" + core.ShortKey(at.Obj)
+	}
+	var outs []string
+	for _, c := range sites {
+		outs = append(outs, substParams(o, at, c, top, depth))
+	}
+	outs = uniq(outs)
+	if len(outs) == 1 {
+		return outs[0]
+	}
+	return "phi(" + strings.Join(outs, " | ") + ")"
 }
 
 // replaceToken replaces from where it is not followed by an identifier character.
